@@ -65,6 +65,10 @@ pub struct StoreScenario {
     /// fail the k-th store write counted from the last one of the fault-free run (a dry run counts them)
     #[serde(default)]
     pub fail_write_from_end: Option<u64>,
+    /// C15: keep a snapshot of the (in-memory) store after every single store write and demand of each that the
+    /// prefixes acknowledged by the flushes that had returned by then are intact (crash between two store writes)
+    #[serde(default)]
+    pub crash_every_write: bool,
 }
 
 /// One recorded draw as it was handed to the backend.
@@ -707,8 +711,25 @@ pub struct FaultStoreState {
     pub writes: u64,
     pub fail_at: Option<u64>,
     pub failed: bool,
+    /// keep a log of every successful write (crash points between store writes are replayed from it)
     pub keep_snapshots: bool,
-    pub snapshots: Vec<(u64, Arc<MemoryStore>)>,
+    pub write_log: Vec<(u64, WriteRec)>,
+}
+
+/// One successful store write, as a fresh reader would see its effect.
+#[derive(Clone)]
+pub enum WriteRec {
+    Set(zarrs::storage::StoreKey, zarrs::storage::Bytes),
+    Erase(zarrs::storage::StoreKey),
+    ErasePrefix(zarrs::storage::StorePrefix),
+}
+
+pub fn apply_write_rec(dst: &MemoryStore, rec: &WriteRec) {
+    let _ = match rec {
+        WriteRec::Set(k, v) => dst.set(k, v.clone()),
+        WriteRec::Erase(k) => dst.erase(k),
+        WriteRec::ErasePrefix(p) => dst.erase_prefix(p),
+    };
 }
 
 impl FaultStore {
@@ -744,14 +765,11 @@ impl FaultStore {
         }
         Ok(())
     }
-    fn after_write(&self) {
+    fn after_write(&self, ok: bool, rec: impl FnOnce() -> WriteRec) {
         let mut st = self.state.lock().unwrap();
-        if st.keep_snapshots {
+        if st.keep_snapshots && ok {
             let k = st.writes;
-            drop(st);
-            let snap = self.snapshot();
-            let mut st = self.state.lock().unwrap();
-            st.snapshots.push((k, snap));
+            st.write_log.push((k, rec()));
         }
     }
 }
@@ -790,26 +808,28 @@ impl ListableStorageTraits for FaultStore {
 impl WritableStorageTraits for FaultStore {
     fn set(&self, key: &zarrs::storage::StoreKey, value: zarrs::storage::Bytes) -> std::result::Result<(), zarrs::storage::StorageError> {
         self.before_write()?;
+        let keep = self.state.lock().unwrap().keep_snapshots;
+        let copy = if keep { Some(value.clone()) } else { None };
         let r = self.inner.set(key, value);
-        self.after_write();
+        self.after_write(r.is_ok(), || WriteRec::Set(key.clone(), copy.unwrap_or_default()));
         r
     }
     fn set_partial_many(&self, key: &zarrs::storage::StoreKey, offset_values: zarrs::storage::OffsetBytesIterator) -> std::result::Result<(), zarrs::storage::StorageError> {
         self.before_write()?;
         let r = self.inner.set_partial_many(key, offset_values);
-        self.after_write();
+        self.after_write(r.is_ok(), || WriteRec::Set(key.clone(), self.inner.get(key).ok().flatten().unwrap_or_default()));
         r
     }
     fn erase(&self, key: &zarrs::storage::StoreKey) -> std::result::Result<(), zarrs::storage::StorageError> {
         self.before_write()?;
         let r = self.inner.erase(key);
-        self.after_write();
+        self.after_write(r.is_ok(), || WriteRec::Erase(key.clone()));
         r
     }
     fn erase_prefix(&self, prefix: &zarrs::storage::StorePrefix) -> std::result::Result<(), zarrs::storage::StorageError> {
         self.before_write()?;
         let r = self.inner.erase_prefix(prefix);
-        self.after_write();
+        self.after_write(r.is_ok(), || WriteRec::ErasePrefix(prefix.clone()));
         r
     }
     fn supports_set_partial(&self) -> bool {
